@@ -654,6 +654,23 @@ def _pair_ok(ix, fn_new, new, fn_old, old, cmod, cattr, pit, filt):
 
 
 # ---------------------------------------------------------------------------------------------
+def stage_iteration_options(run):
+    """each solver stage reads the iteration limit of its own mode (shared with C14: the option in force for a stage is the
+    option of that stage)"""
+    ix = run.index
+    nr, sites = _nr_sites(run)
+    expect = {"hydraulics": "max_iter_hyd", "heat_transfer": "max_iter_therm", "bidirectional": "max_iter_bidirect"}
+    ps = ix.module(PS)
+    defaults = ix.eval_const(PS, ps.assigns["default_options"])
+    for fi, call, b in sites:
+        nm = const_str(b["iter_name"])
+        run.ob("%s|iter-option" % fi.name, nm == expect.get(fi.name),
+               "stage %s passes iteration option %r (expected %r)" % (fi.name, nm, expect.get(fi.name)),
+               run.where(fi, call))
+        run.ob("%s|iter-option-has-default" % fi.name, nm in defaults and isinstance(defaults.get(nm), int),
+               "option %r has an integer default" % nm, run.where(fi, call))
+
+
 def r5_4(run):
     ix = run.index
     nr, sites = _nr_sites(run)
@@ -702,16 +719,7 @@ def r5_4(run):
            "the counter is increased by exactly 1 on every path through the loop body (also on `continue` paths)", run.where(nr, wl),
            detail=_ts(nxt)[:120] if nxt is not None else None)
     # mode-specific option names
-    expect = {"hydraulics": "max_iter_hyd", "heat_transfer": "max_iter_therm", "bidirectional": "max_iter_bidirect"}
-    ps = ix.module(PS)
-    defaults = ix.eval_const(PS, ps.assigns["default_options"])
-    for fi, call, b in sites:
-        nm = const_str(b["iter_name"])
-        run.ob("%s|iter-option" % fi.name, nm == expect.get(fi.name),
-               "stage %s passes iteration option %r (expected %r)" % (fi.name, nm, expect.get(fi.name)),
-               run.where(fi, call))
-        run.ob("%s|iter-option-has-default" % fi.name, nm in defaults and isinstance(defaults.get(nm), int),
-               "option %r has an integer default" % nm, run.where(fi, call))
+    stage_iteration_options(run)
     # solve_hydraulics' inner restart loop must make progress: it only repeats while the connectivity changed
     sh = ix.func(P + ".solve_hydraulics")
     inner = [n for n in own_walk(sh.node) if isinstance(n, ast.While)]
